@@ -23,6 +23,11 @@ pub struct CStream {
     pub window: Option<usize>,
     /// target context of the emit (None = plain emit)
     pub emit_to: Option<usize>,
+    /// plain emit although the consumer lives in another context: the event has to reach it
+    /// through the orchestrator's routing table (consumer's source names this stream)
+    pub implicit: bool,
+    /// consumer form `SRC as a -> SRC as b` (aliased pattern source) instead of a bare source
+    pub seq: bool,
 }
 
 #[derive(Clone, Debug, Hash, PartialEq, Eq)]
@@ -41,16 +46,24 @@ impl CProg {
             s.push('\n');
         }
         for st in &self.streams {
-            s.push_str(&format!("stream {} = {}\n", st.name, st.src));
+            if st.seq {
+                s.push_str(&format!("stream {} = {} as a -> {} as b\n", st.name, st.src, st.src));
+            } else {
+                s.push_str(&format!("stream {} = {}\n", st.name, st.src));
+            }
             if with_contexts {
                 s.push_str(&format!("    .context(c{})\n", st.ctx));
+            }
+            if st.seq {
+                s.push_str("    .emit(u0: a.uid, u1: b.uid)\n\n");
+                continue;
             }
             if let Some(c) = st.min_x {
                 s.push_str(&format!("    .where(x >= {})\n", c));
             }
             let tgt = match (with_contexts, st.emit_to) {
                 // a consumer in the producer's own context is fed by a plain emit
-                (true, Some(t)) if t != st.ctx => format!("context: c{}, ", t),
+                (true, Some(t)) if t != st.ctx && !st.implicit => format!("context: c{}, ", t),
                 _ => String::new(),
             };
             match st.window {
@@ -100,6 +113,8 @@ pub fn gen_cprog(rng: &mut Rng) -> CProg {
             let last = j == len - 1;
             let next_ctx = if last { None } else if rng.chance(1, 4) { Some(ctx) } else { Some((ctx + 1 + rng.below(nctx - 1)) % nctx) };
             let window = if last && rng.chance(1, 2) { Some(2 + rng.below(3)) } else { None };
+            // a derived last stream may read its producer through an aliased pattern source
+            let seq = last && j > 0 && window.is_none() && rng.chance(1, 3);
             streams.push(CStream {
                 name: name.clone(),
                 src: prev_name.clone(),
@@ -107,6 +122,8 @@ pub fn gen_cprog(rng: &mut Rng) -> CProg {
                 min_x: if rng.chance(1, 2) { Some(rng.range(0, 2)) } else { None },
                 window,
                 emit_to: next_ctx,
+                implicit: rng.chance(1, 3),
+                seq,
             });
             prev_name = name;
             if let Some(n) = next_ctx {
